@@ -398,6 +398,23 @@ func (app *App) stateManager() appState {
 		}
 	}
 
+	// check if we are in maintenance
+	maintenance, err := app.GetMaintenance()
+	if err != nil && !errors.Is(err, dcs.ErrNotFound) {
+		app.logger.Error().Err(err).Msg("failed to get maintenance from zk")
+
+		if app.doesMaintenanceFileExist() {
+			return stateMaintenance
+		}
+		// Without the file we may still be in (light or just acknowledged) maintenance:
+		// do nothing until the maintenance state can be read
+		return stateManager
+	}
+	// an acknowledged full maintenance freezes everything, also re-learning a missing master record below
+	if maintenance != nil && !maintenance.IsLightMode() && maintenance.MaintAcquired() {
+		return stateMaintenance
+	}
+
 	// master is master host that should be on cluster
 	master, err := app.getCurrentMaster(clusterState)
 	if err != nil {
@@ -422,19 +439,6 @@ func (app *App) stateManager() appState {
 	app.logger.Info().Msgf("master: %s", master)
 	app.logger.Info().Msgf("cs: %v", clusterState)
 	app.logger.Info().Msgf("dcs cs: %v", clusterStateDcs)
-
-	// check if we are in maintenance
-	maintenance, err := app.GetMaintenance()
-	if err != nil && !errors.Is(err, dcs.ErrNotFound) {
-		app.logger.Error().Err(err).Msg("failed to get maintenance from zk")
-
-		if app.doesMaintenanceFileExist() {
-			return stateMaintenance
-		}
-		// Without the file we may still be in (light or just acknowledged) maintenance:
-		// do nothing until the maintenance state can be read
-		return stateManager
-	}
 
 	lightMaintenance := maintenance != nil && maintenance.IsLightMode()
 
